@@ -142,6 +142,15 @@ func c11Victims() []c11Victim {
 			}
 			return nil
 		}, Run: func(st *pxStore, p *posix.Posix, c map[string]string) error { return put(st, p, "k", mkval(3), nil) }},
+		{Name: "PutObject directory object overwrite", Key: "dd/", Prep: func(st *pxStore) map[string]string {
+			if _, err := st.A.PutObject(st.ctx(), s3response.PutObjectInput{Bucket: sp(c11Bucket), Key: sp("dd/"), Body: bytes.NewReader(nil), ContentLength: i64(0), Metadata: map[string]string{"w": "m0", "album": "2023"}}); err != nil {
+				ck.Fatal("seed directory object: %v", err)
+			}
+			return nil
+		}, Run: func(st *pxStore, p *posix.Posix, c map[string]string) error {
+			_, err := p.PutObject(st.ctx(), s3response.PutObjectInput{Bucket: sp(c11Bucket), Key: sp("dd/"), Body: bytes.NewReader(nil), ContentLength: i64(0), Metadata: map[string]string{"w": "m1", "album": "2024"}})
+			return err
+		}},
 		{Name: "DeleteObject by version id of the current version", Key: "k", NeedsVersioning: true, Prep: func(st *pxStore) map[string]string {
 			seed("k")(st)
 			if err := put(st, st.A, "k", v1, nil); err != nil {
@@ -307,7 +316,7 @@ var rePath = regexp.MustCompile(`"?/[^ :"]+"?`)
 func C11(r *ck.Run) {
 	requireInstrumented()
 	r.Level = "fault_enumeration"
-	r.Rule("for every victim operation (PutObject new / overwrite / nested / with tags / with tags+legal hold+retention / on a Suspended bucket over a version beside a preserved null version, CopyObject, UploadPart re-upload, CompleteMultipartUpload new / overwrite, DeleteObject plain / nested with parent pruning / by version id, PutBucketVersioning) × storage configuration {O_TMPFILE, named temp} × {xattr, sidecar} × {unversioned, versioning enabled}: the process is killed before EVERY file-system step of the operation (the logical thread is frozen before step i, its file descriptors are closed, deferred Go code does not reach the file system), a new backend instance is started on the same storage and everything the API shows about the key is compared with the complete previous and the complete new state (an interrupted multipart completion that left the previous state must be repeatable); distinct = (configuration, victim, crash point)")
+	r.Rule("for every victim operation (PutObject new / overwrite / nested / with tags / with tags+legal hold+retention / on a Suspended bucket over a version beside a preserved null version / of a directory object that exists, CopyObject, UploadPart re-upload, CompleteMultipartUpload new / overwrite, DeleteObject plain / nested with parent pruning / by version id, PutBucketVersioning) × storage configuration {O_TMPFILE, named temp} × {xattr, sidecar} × {unversioned, versioning enabled}: the process is killed before EVERY file-system step of the operation (the logical thread is frozen before step i, its file descriptors are closed, deferred Go code does not reach the file system), a new backend instance is started on the same storage and everything the API shows about the key is compared with the complete previous and the complete new state (an interrupted multipart completion that left the previous state must be repeatable); distinct = (configuration, victim, crash point)")
 	r.Assume("a killed process loses its file descriptors and runs no deferred code; page-cache contents survive (process crash, not power loss); single syscalls are atomic")
 	cfgs := []pxCfg{{}, {NoTmp: true}, {Versioning: true}, {NoTmp: true, Versioning: true}}
 	if r.Thorough() {
@@ -440,6 +449,9 @@ func c11RunVictim(r *ck.Run, st *pxStore, v c11Victim) {
 		}
 		// leftovers never prevent later operations on the key or the bucket
 		nv := mkval(2)
+		if strings.HasSuffix(v.Key, "/") {
+			nv.Body = nil // a directory object holds no data
+		}
 		if _, err := st.B.PutObject(st.ctx(), s3response.PutObjectInput{Bucket: sp(c11Bucket), Key: &v.Key, Body: bytes.NewReader(nv.Body), ContentLength: i64(int64(len(nv.Body)))}); err != nil && !strings.Contains(err.Error(), "lock") {
 			det["followup_error"] = err.Error()
 			r.Violation(ck.JoinSig("crash", v.Name, metaClass(st.Cfg), "later-PUT-fails:"+errClassAPI(err)), det)
